@@ -33,7 +33,7 @@ pub struct SendOp {
     pub ttl: u8,
     pub begin: u64,
     pub end: Option<u64>,
-    pub replies: Vec<(u16, u64, u32)>,
+    pub replies: Vec<(u16, u64, u32, u32)>,
     pub cmd: u16,
 }
 
@@ -97,7 +97,8 @@ pub struct Hist {
     pub inits: Vec<InitRec>,
     pub trace: Vec<(u64, TraceEv)>,
     pub syncs: Vec<(u64, T, Option<u64>)>,
-    pub sink_reads: Vec<(u64, u16, Vec<(u64, u32)>)>,
+    /// (seq, sink, number of events asked for, events obtained as (msg id, via)).
+    pub sink_reads: Vec<(u64, u16, u8, Vec<(u64, u32)>)>,
     pub sink_writes: Vec<(u64, u16, u64, u32, u32)>,
     pub sink_ctl: Vec<(u64, u16, bool)>,
     pub time_reads: Vec<(u64, Actor, T)>,
@@ -234,7 +235,7 @@ impl Hist {
                 }
                 Ev::TimeRead { actor, time } => h.time_reads.push((seq, *actor, *time)),
                 Ev::ClockSync { time, answer_lag } => h.syncs.push((seq, *time, *answer_lag)),
-                Ev::SinkRead { sink, items } => h.sink_reads.push((seq, *sink, items.clone())),
+                Ev::SinkRead { sink, asked, items } => h.sink_reads.push((seq, *sink, *asked, items.clone())),
                 Ev::SinkCtl { sink, open } => h.sink_ctl.push((seq, *sink, *open)),
                 Ev::SinkWrite { sink, msg, via, salt } => h.sink_writes.push((seq, *sink, *msg, *via, *salt)),
                 Ev::Trace(t) => h.trace.push((seq, *t)),
